@@ -27,6 +27,11 @@ let rec run_case (kind : string) (body : sexp list) : string * string =
       let pre = (match first_side o with A -> ca @ cb | B -> cb @ ca) in
       let tl = pre @ hot_tl in
       (show_trace (run_op2 o tl), show_trace (spec_op2 o tl))
+  | "subject" ->
+      let h = List.map sop_of (args (List.nth body 1)) in
+      (* sub_closed on a subscriber that does not exist yet is skipped by the harness *)
+      (show_sobs_list (srun subj0 h),
+       if size_ok false h then show_sobs_list (arun asub0 h) else "UNSPECIFIED")
   | k -> failwith ("unknown case kind " ^ k)
 
 let () =
